@@ -70,8 +70,13 @@ def nvNameSorter : SCmp NV Unit := valueNilSorter (pureCmp byName)
 def nvValueLess (a b : NV) : Bool := (nvValueSorter () a b).1
 def nvNameLess (a b : NV) : Bool := (nvNameSorter () a b).1
 
-/-- A sorting routine: given `less` and a list, a list. (`sort.Sort`; executable stand-in: `isort`.) -/
-abbrev SortFn := {α : Type} → (α → α → Bool) → List α → List α
+/-- A sorting routine on name/value pairs: given `less` and a list, a list.
+(`sort.Sort` through `sorting.SortBy`; executable stand-in: `isort`.) -/
+abbrev SortFn := (NV → NV → Bool) → List NV → List NV
+
+/-- the header words `group`, `value` -/
+def hdrGroup : Bytes := [103, 114, 111, 117, 112]
+def hdrValue : Bytes := [118, 97, 108, 117, 101]
 
 /-! ### pkg/csv/aggWriters.go
 
@@ -79,7 +84,7 @@ Each writer is a function of (i) the map keys in iteration order, (ii) look-ups.
 
 /-- `WriteCounter`: header, then `ItemsSortedBy(GroupCount(), NVValueSorter)` as `name,count`. -/
 def counterRows (srt : SortFn) (order : List Bytes) (count : Bytes → Int) : List (List Bytes) :=
-  [ascii "group", ascii "value"] ::
+  [hdrGroup, hdrValue] ::
     (srt nvValueLess (order.map fun k => (⟨k, count k⟩ : NV))).map fun nv => [nv.name, itoa nv.value]
 
 /-- `WriteTable`: `"" :: OrderedColumns(NVNameSorter)`, then per `OrderedRows(NVNameSorter)` the name
@@ -94,7 +99,7 @@ def tableRows (srt : SortFn) (colOrder rowOrder : List Bytes) (colTotal rowSum :
 /-- `WriteSubCounter`: `"group" :: SubKeys()`, then per `ItemsSorted(NVNameSorter)` the name and the vector. -/
 def subCounterRows (srt : SortFn) (order : List Bytes) (subKeys : List Bytes) (count : Bytes → Int)
     (vec : Bytes → List Int) : List (List Bytes) :=
-  (ascii "group" :: subKeys) ::
+  (hdrGroup :: subKeys) ::
     (srt nvNameLess (order.map fun k => (⟨k, count k⟩ : NV))).map fun nv => nv.name :: (vec nv.name).map itoa
 
 /-! instantiation on the aggregator states of C07 -/
